@@ -173,6 +173,11 @@ async fn linger_close(local: std::net::TcpStream) {
 /// how long a flow of which one direction has ended cleanly waits for the other direction to end too
 const CLOSE_GRACE: Duration = Duration::from_secs(10);
 
+/// how long a flow of which one direction has failed lets the other direction finish what it is doing. Ending the flow in
+/// the same instant drops the other direction in the middle of a flush: an upload that fails because the server has
+/// closed the link (a WebSocket close frame was read) would cut off the tail of the answer that is being written out.
+const ERROR_GRACE: Duration = Duration::from_secs(2);
+
 async fn relay_tcp<I, O>(local_client: I, client_server: O) -> relay::Result
 where
     I: Sink<BytesMut, Error = anyhow::Error> + Stream<Item = Result<BytesMut>>,
@@ -181,7 +186,7 @@ where
     let (c_l, l_c) = local_client.split();
     let (c_s, s_c) = client_server.split();
     // A direction that ends cleanly has flushed and closed its sink. The other direction goes on until it ends too (then
-    // the flow ends at once), for at most CLOSE_GRACE; an error ends the flow at once. Dropping the sockets as soon as one
+    // the flow ends at once), for at most CLOSE_GRACE, or ERROR_GRACE after a failure. Dropping the sockets as soon as one
     // direction is done would close them with unread input (the other direction's bytes, TLS session tickets), which
     // resets the connection and destroys what is still in flight in either direction.
     let one_done = AtomicBool::new(false);
@@ -211,7 +216,12 @@ where
                     None => relay::Result::Close(End::Local, End::Client),
                 })
             }
-            Err(e) => Err(relay::Result::Err(End::Local, End::Client, e)),
+            Err(e) => {
+                if !one_done.swap(true, Ordering::Relaxed) {
+                    time::sleep(ERROR_GRACE).await;
+                }
+                Err(relay::Result::Err(End::Local, End::Client, e))
+            }
         }
     };
 
@@ -223,7 +233,12 @@ where
                 }
                 Err::<(), _>(relay::Result::Close(End::Server, End::Client))
             }
-            Err(e) => Err(relay::Result::Err(End::Server, End::Client, e)),
+            Err(e) => {
+                if !one_done.swap(true, Ordering::Relaxed) {
+                    time::sleep(ERROR_GRACE).await;
+                }
+                Err(relay::Result::Err(End::Server, End::Client, e))
+            }
         }
     };
 
